@@ -133,7 +133,13 @@ def c09(run, tier):
     run.rule = ("invariant BoundedWork (every public call of the engine model ends within MaxEvents steps) over the propositional family x "
                 "{solve, solve_limited}; replay: real SLG performs exactly the number of engine steps the specification computes, the recursive "
                 "solver returns under a watchdog, no call panics; plus every (program, goal) of the repository's test corpus under both solvers "
-                "with watchdog, SLG traces validated against SLG.tla (each public call reaches OpEnd)")
+                "with watchdog, SLG traces validated against SLG.tla (each public call reaches OpEnd); first-order level: sampled programs with unbounded "
+                "answer sets, growing types and where-clauses larger than the impl head, #[non_enumerable] traits, 17 goals with an unknown or a "
+                "hypothesis + 5 closed goals under SLG (max_size 10 and 4) and the recursive solver (default limits and overflow 20 / max_size 4): "
+                "every call returns under the watchdog, does not panic (recursive solver: except `overflow depth reached`, the property's proviso), "
+                "solve_multiple streams (callback always true) end by themselves within the number of answers the size limit admits, and the SLG "
+                "executions (solve and solve_multiple) are behaviours of SLG.tla, whose TableNew / AnswerNew actions require the subgoal / answer "
+                "to be within the size limit")
     run.assumptions = GROUND_ASSUME + ["corpus: tests whose program uses negative cycles (documented panics, #[should_panic]) are excluded from the no-panic claim",
                                        "watchdog: 300 s per chunk of jobs; a hang is reported as a violation"]
     f, byid = fam(run, tier, (2, 2, 2, True, True), 300, (3, 3, 1, True, True), 6000)
@@ -141,6 +147,8 @@ def c09(run, tier):
                                                           "Invariants": ["BoundedWork", "ResultsCorrect", "InterruptSafe"]}, "C09")
     gc.replay(run, recs, byid, [gc.SLG, gc.REC])
     corpus_run(run, tier, want="terminate")
+    import props_term
+    props_term.terminate_first_order(run, tier)
 
 # ------------------------------------------------------------------------------------------------
 @prop("C10")
@@ -182,8 +190,16 @@ def c13(run, tier):
     run.rule = ("for every multiset of clauses of the family all permutations (declaration orders) are members of the family; TLC checks "
                 "ResultsCorrect for each order against the order-independent meaning; replay on real SLG / recursive; additionally the driver "
                 "checks that all orders of one multiset got the same real answers; item order is also permuted at the text level "
-                "(structs/traits/impls shuffled by seed)")
-    run.assumptions = GROUND_ASSUME
+                "(structs/traits/impls shuffled by seed); first-order level (MiniMC.tla, whose meaning is a function of the SET of impls): "
+                "programs with up to 6 impls incl. generic and blanket impls over three traits, 25 goals each, solved under 6 (thorough: 12) "
+                "declaration orders (impls permuted, declarations before or after the impls) by both solvers: every order must give the answer "
+                "the meaning demands and the same answer text as every other order; ImplMC.tla: coherent programs (invariant FamilyCoherent = the overlap "
+                "check) over two closed and two generic structs with 3..7 impls, up to two where-clauses each, blanket impls; meaning of 10 closed goals "
+                "per program (OrderIrrelevant: evaluated on the reversed list as well), 15 goals with unknowns / hypotheses compared across orders "
+                "(impls permuted, where-clauses reversed, declarations before or after)")
+    run.assumptions = GROUND_ASSUME + ["first-order families: only coherent programs (no two impls of a trait with unifiable heads); with overlapping impls "
+                                       "(e.g. `impl T for B` next to `impl<X> T for X`) SLG's aggregated answer does depend on which answer arrives first "
+                                       "(trivial-answer cut) -- such programs are rejected by the repository's coherence check and are outside the claim"]
     f, byid = fam(run, tier, (2, 3, 2, False, True), 400, (3, 3, 1, True, True), 8000)
     recs = gc.model_check(run, f, gc.goals_atoms, {"MaxOps": 1, "Kinds": ["solve"], "Invariants": ["ResultsCorrect"]}, "C13")
     gc.replay(run, recs, byid, [gc.SLG, gc.REC])
@@ -193,6 +209,10 @@ def c13(run, tier):
         rnd.shuffle(items)
         return " ".join(items)
     gc.replay(run, recs, byid, [gc.SLG, gc.REC], render=shuffled, validate=True, check_steps=False, label="shuffled-items")
+    import props_mini
+    props_mini.order_first_order(run, tier)
+    import props_order
+    props_order.order_generic(run, tier)
 
 # ------------------------------------------------------------------------------------------------
 
